@@ -49,6 +49,12 @@ def _monotonic_factorization(arr_list, total_len):
 
     arr_num = 0
     arr = arr_list[arr_num]
+    # empty chunks (e.g. left behind by a filter) have no first element
+    while len(arr) == 0 and arr_num < len(arr_list) - 1:
+        arr_num += 1
+        arr = arr_list[arr_num]
+    if len(arr) == 0:
+        return 0, codes, labels[:0]
 
     if arr[0] != arr[0]:
         # leading null (NaN/NaT): no monotonic prefix, nulls never become labels
@@ -62,7 +68,7 @@ def _monotonic_factorization(arr_list, total_len):
     cur_arr_pos = 0
     for i in range(1, total_len):
         cur_arr_pos += 1
-        if cur_arr_pos == len(arr):
+        while cur_arr_pos == len(arr):
             arr_num += 1
             arr = arr_list[arr_num]
             cur_arr_pos = 0
